@@ -28,6 +28,15 @@ func (s ISet) Max() int { return 1 << uint(s.MinShift+3*s.Depth) }
 
 // RandISet generates a sorted record set with positions and lengths biased
 // to tile edges and to every bin-level edge of the geometry.
+// SpanCap is the largest record or query width used for a scheme: unlimited
+// (0) up to depth 6, 2^15 smallest bins for deeper schemes.
+func SpanCap(minShift, depth int) int {
+	if depth <= 6 {
+		return 0
+	}
+	return 1 << uint(minShift+15)
+}
+
 func RandISet(rng *rand.Rand, minShift, depth int) ISet {
 	s := ISet{NRefs: 1 + rng.Intn(4), MinShift: minShift, Depth: depth}
 	max := s.Max() - 2
@@ -94,6 +103,9 @@ func RandISet(rng *rand.Rand, minShift, depth int) ISet {
 		if !r.Mapped {
 			l = 1 // placed unmapped reads are treated as length one
 		}
+		if c := SpanCap(minShift, depth); c > 0 && l > c {
+			l = c
+		}
 		if st+l > max {
 			l = max - st
 		}
@@ -131,10 +143,13 @@ func RandISet(rng *rand.Rand, minShift, depth int) ISet {
 // laid end to end in the uncompressed stream, which is cut into blocks of
 // seeded sizes. It returns a File whose Blocks describe the layout (no bytes)
 // and the logical [begin,end) of each record.
-func Layout(rng *rand.Rand, recs []IRec) (*File, [][2]int64) {
+func Layout(rng *rand.Rand, recs []IRec, fromZero bool) (*File, [][2]int64) {
 	f := &File{}
 	var spans [][2]int64
 	total := int64(1000 + rng.Intn(5000)) // header bytes before the first record
+	if fromZero {
+		total = 0 // a headerless data file: the first record is at virtual offset 0
+	}
 	for _, r := range recs {
 		spans = append(spans, [2]int64{total, total + int64(r.Size)})
 		total += int64(r.Size)
